@@ -15,6 +15,7 @@ import (
 	"crypto/ecdsa"
 	"fmt"
 	"math/big"
+	"os"
 	"sort"
 	"strings"
 	"sync"
@@ -316,16 +317,16 @@ func runC19(seed uint64, n int, outDir string, replay string) {
 		o.Op("newcase")
 		ans("ok")
 		if c%5 == 4 {
+			rl := rc.Fork() // the local-accounts scenario rides along with the flood cases: the modelled cases keep their streams
 			c19Flood(o, rc)
+			c19Locals(o, rl)
+			c19Locals(o, rl.Fork())
 			o.EndCase(fmt.Sprint(rc.U64()), true)
 			continue
 		}
-		if c%5 == 2 {
-			c19Locals(o, rc)
-			o.EndCase(fmt.Sprint(rc.U64()), true)
-			continue
-		}
-		func() {
+		caseDone := make(chan struct{})
+		go func() {
+			defer close(caseDone)
 			defer func() {
 				if p := recover(); p != nil {
 					o.Violate("c19-panic", fmt.Sprintf("panic: %v at %s", p, stackTop()))
@@ -387,7 +388,7 @@ func runC19(seed uint64, n int, outDir string, replay string) {
 				}
 			}
 			dropFor := map[int]uint64{}
-			for step, steps := 0, 12+rc.Intn(25); step < steps; step++ {
+			for step, steps := 0, 16+rc.Intn(28); step < steps; step++ {
 				ai := rc.Intn(len(accts))
 				a := accts[ai]
 				switch k := rc.Intn(10); {
@@ -396,7 +397,21 @@ func runC19(seed uint64, n int, outDir string, replay string) {
 					nonce := a.nonce + uint64(len(pend))
 					price := uint64(100 + rc.Intn(30))
 					value := uint64(rc.Intn(1000))
-					switch []int{0, 0, 0, 2, 2, 2, 4, 5, 6, 7, 7, 7}[rc.Intn(12)] {
+					kind := []int{0, 0, 0, 2, 2, 2, 4, 5, 6, 7, 7, 7}[rc.Intn(12)]
+					if len(que) >= 2 && rc.Chance(35) {
+						kind = 8
+					} else if len(que) == 1 && rc.Chance(35) {
+						kind = 9
+					}
+					switch kind {
+					case 9: // a second queued transaction, leaving a gap inside the queue
+						nonce = que[0].Nonce() + 2
+					case 8: // a valid replacement of a queued transaction - the last one, beyond any gap inside the queue
+						sort.Slice(que, func(i, j int) bool { return que[i].Nonce() < que[j].Nonce() })
+						old := que[len(que)-1-rc.Intn(2)]
+						nonce = old.Nonce()
+						price = old.GasPrice().Uint64()*2 + uint64(rc.Intn(5))
+						o.Count("directed-queued-replacement")
 					case 0, 1: // a gap
 						nonce += 1 + uint64(rc.Intn(3))
 						if len(que) > 0 && rc.Chance(50) { // or beyond what is already queued
@@ -520,6 +535,26 @@ func runC19(seed uint64, n int, outDir string, replay string) {
 							b.balance = 1_000_000 + uint64(rc.Intn(9_000_000))
 						}
 					}
+					if rc.Chance(45) {
+						// on the new branch one account can no longer afford the oldest of its transactions the abandoned blocks
+						// carried: it does not come back, and whatever of that account is still pending hangs in the air
+						var oldest *types.Transaction
+						oi := -1
+						for j := 0; j < len(branch) && oldest == nil; j++ {
+							for _, t := range branch[j].txs {
+								from, _ := types.Sender(types.NewSigner(p19ChainID, common.Location{0, 0}), t)
+								for i, b := range accts {
+									if b.addr.Equal(from) && (oldest == nil || t.Nonce() < oldest.Nonce()) {
+										oldest, oi = t, i
+									}
+								}
+							}
+						}
+						if oldest != nil && oldest.Cost().Uint64() > 10 {
+							accts[oi].balance = oldest.Cost().Uint64() - 1 - uint64(rc.Intn(3))
+							o.Count("reorg-oldest-reinjected-unaffordable")
+						}
+					}
 					var nb *types.WorkObject
 					parent := base
 					for j := 0; j <= len(branch); j++ { // one longer than the abandoned branch
@@ -553,6 +588,15 @@ func runC19(seed uint64, n int, outDir string, replay string) {
 				show(fmt.Sprintf("step %d", step))
 			}
 		}()
+		select {
+		case <-caseDone:
+		case <-time.After(90 * time.Second):
+			// the case is stuck inside the pool (a lock that is never released): nothing more can be learnt from this process
+			o.Violate("c19-deadlock", "a sequence of submissions, blocks and reorganisations did not finish within 90 s: a pool call never returns")
+			o.EndCase("stuck", true)
+			o.Close(nil)
+			os.Exit(0)
+		}
 		o.EndCase(fmt.Sprint(rc.U64()), true)
 	}
 	o.Close(nil)
